@@ -1136,8 +1136,9 @@ class Engine:
     try:
       for text in stmts:
         text = " ".join(text.split())
-        if text.startswith("assert "):
-          body = text[7:]
+        if text.startswith("assert ") or text.startswith("check "):
+          only_check = text.startswith("check ")      # obligation that is NOT added to the path condition afterwards
+          body = text[7:] if not only_check else text[6:]
           props = None
           if body.startswith("["):   # assert [C01] expr
             tag, _, body = body[1:].partition("]")
@@ -1145,8 +1146,12 @@ class Engine:
             if self.prop is not None and self.prop not in props:
               continue
           g = self.truthy(st, self.ev(ast.parse(body.strip(), mode="eval").body, st))
+          n_pc = len(st.pc)
           self.emit(st, "call-site", f"{label}:{body.strip()}", g, clause=body.strip(), line=line, props=props)
-          st.assume(g)
+          if only_check:
+            del st.pc[n_pc:]
+          else:
+            st.assume(g)
         elif text.startswith("let ") or "=" in text.split("(")[0]:
           t2 = text[4:] if text.startswith("let ") else text
           name, _, expr = t2.partition("=")
@@ -1930,12 +1935,20 @@ class Engine:
     for s in body:
       for n in ast.walk(s):
         if isinstance(n, ast.Call) and isinstance(n.func, ast.Attribute) and n.func.attr in (
-            "append", "pop", "extend", "insert", "remove", "clear", "heappush", "heappop"):
-          return True
+            "append", "pop", "extend", "insert", "remove", "clear"):
+          r = n.func.value
+          while isinstance(r, (ast.Subscript, ast.Attribute)):
+            r = r.value
+          if not isinstance(r, ast.Name) or r.id == name:
+            return True
+        if isinstance(n, ast.Call) and isinstance(n.func, ast.Attribute) and n.func.attr in ("heappush", "heappop"):
+          r = n.args[0] if n.args else None
+          if not isinstance(r, ast.Name) or r.id == name:
+            return True
         if isinstance(n, ast.AugAssign) and isinstance(n.target, ast.Name) and n.target.id == name:
           return True
-        if isinstance(n, ast.Call) and isinstance(n.func, ast.Name):
-          return True
+        if isinstance(n, ast.Call) and isinstance(n.func, ast.Name) and n.func.id not in self.th.BUILTINS:
+          return True      # a local helper function may resize the list through its closure
     return False
 
   def st_For(self, s, st):
@@ -2049,12 +2062,17 @@ class Engine:
         raise Unsupported(f"abstract loop {ordinal} contains return/raise")
     self.abstracted.add(f"loop {ordinal} of {self.cur.qual} at L{s.lineno} abstracted: assigned names havocked, assumed "
                         "effect-free outside them and not to raise")
-    names = self.assigned_names([s]) | self.mutated_roots(s.body, st)
-    for n in sorted(names):
+    assigned = self.assigned_names([s])
+    roots = self.mutated_roots(s.body, st)
+    for n in sorted(assigned | roots):
       if n in lc.get("keep", ()):
         continue
       decl = lc["types"].get(n)
-      if decl is not None and decl != "opaque":
+      cur = st.frame.env.get(n)
+      if n in roots and n not in assigned and isinstance(cur, Ptr) and isinstance(st.deref(cur), HList):
+        # a list that is only written through subscripts keeps its length; its contents become arbitrary
+        self.havoc_value(st, cur, n, decl, keep_len=not self.may_resize(s.body, n))
+      elif decl is not None and decl != "opaque":
         st.frame.env[n] = self.fresh_heap(st, decl, n)
       else:
         st.frame.env[n] = Opaque(f"{n} (result of abstracted loop {ordinal})")
